@@ -64,10 +64,7 @@ func dump(sb *strings.Builder, v reflect.Value, skip map[string]bool, depth int)
 		}
 		sb.WriteString("}")
 	case reflect.Slice:
-		if v.IsNil() {
-			sb.WriteString("nil")
-			return
-		}
+		// nil and empty slices are the same value for every comparison made here
 		if v.Type().Elem().Kind() == reflect.Uint8 {
 			sb.WriteString("x'")
 			sb.WriteString(hex.EncodeToString(v.Bytes()))
